@@ -77,7 +77,9 @@ ReqChain(a, out, o) ==
     (* webpki refuses a CA certificate in the end-entity position (documented); OpenSSL alone judges those chains *)
     (* a certificate whose subject equals its issuer's name although another key signed it ("self-issued") is    *)
     (* treated as a self-signed root by path builders: such chains (they arise in sessions) are not judged        *)
-    <<"C03.validators_accept_chain", a.ca.isCa /\ a.timeInside /\ o.leafSubjectRaw # o.leafIssuerRaw =>
+    (* a CA with name constraints may rightly refuse the fixed names of the test leaf: C12 judges constraints *)
+    <<"C03.validators_accept_chain", a.ca.isCa /\ a.timeInside /\ o.leafSubjectRaw # o.leafIssuerRaw
+                                       /\ ~("caHasNameConstraints" \in DOMAIN a /\ a.caHasNameConstraints) =>
                                        o.openssl.accept /\ (a.leafIsCa \/ o.webpki.accept)>>
   }
 
